@@ -288,7 +288,11 @@ func cmdCrash(only string, limit time.Duration) {
 			select {
 			case c = <-state:
 			case <-tick.C:
-				if c.entry != "" && time.Since(c.t0) > limit {
+				lim := limit
+				if c.entry == "api.BuildFile" {
+					lim = 6 * limit // a text that parses is compiled together with the runtime library
+				}
+				if c.entry != "" && time.Since(c.t0) > lim {
 					b, _ := json.Marshal(CrashRes{ID: c.id, Entry: c.entry, Outcome: "hang", Micros: int64(time.Since(c.t0) / time.Microsecond)})
 					os.Stdout.Write(append(b, '\n'))
 					os.Exit(3)
@@ -334,6 +338,56 @@ func cmdCrash(only string, limit time.Duration) {
 	w.Flush()
 }
 
+// ---- language dispatch (C08, WaDispatch.tla) ----
+
+type SynRes struct {
+	ID     int    `json:"id"`
+	Lang   string `json:"lang"`
+	Fmt    string `json:"fmt"` // same | changed | error | panic
+	Detail string `json:"detail"`
+}
+
+func cmdSyntax() {
+	dec := json.NewDecoder(bufio.NewReaderSize(os.Stdin, 1<<20))
+	w := bufio.NewWriter(os.Stdout)
+	defer w.Flush()
+	for dec.More() {
+		var c CrashCase
+		if err := dec.Decode(&c); err != nil {
+			os.Exit(2)
+		}
+		src, _ := hex.DecodeString(c.Hex)
+		r := SynRes{ID: c.ID}
+		func() {
+			defer func() {
+				if p := recover(); p != nil {
+					r.Lang, r.Detail = "panic", fmt.Sprint(p)
+				}
+			}()
+			r.Lang = api.GetCodeSyntax(c.Name, src)
+		}()
+		func() {
+			defer func() {
+				if p := recover(); p != nil {
+					r.Fmt, r.Detail = "panic", fmt.Sprint(p)
+				}
+			}()
+			out, err := api.FormatCode(c.Name, string(src))
+			switch {
+			case err != nil:
+				r.Fmt = "error"
+			case out == string(src):
+				r.Fmt = "same"
+			default:
+				r.Fmt = "changed"
+			}
+		}()
+		b, _ := json.Marshal(r)
+		w.Write(b)
+		w.WriteByte('\n')
+	}
+}
+
 func main() {
 	if len(os.Args) < 2 {
 		fmt.Fprintln(os.Stderr, "usage: front fmt|crash")
@@ -342,6 +396,8 @@ func main() {
 	switch os.Args[1] {
 	case "fmt":
 		cmdFmt()
+	case "syntax":
+		cmdSyntax()
 	case "crash":
 		only := ""
 		if len(os.Args) > 2 {
